@@ -26,6 +26,12 @@ fn sig_of(input: &str, syn1: &str, syn2: &str) -> Option<String> {
     if odd_delims && syn1.starts_with("ERR") && !syn1.starts_with(&format!("ERR {}", crate::xp::ROOT_ERR)) {
         return Some("bracket-or-brace-attr-delimiters".into());
     }
+    // syn 1.0's identifier parser does not treat the edition-2018 keywords async / await / dyn / try as keywords, syn 2's does
+    for kw in ["async", "await", "dyn", "try"] {
+        if input.contains(kw) && syn2 == format!("ERR expected identifier, found keyword `{}`", kw) && syn1 != syn2 {
+            return Some("edition-2018-keyword-is-an-identifier-for-syn1-only".into());
+        }
+    }
     if input.contains(" = ") && (syn1.starts_with("ERR") != syn2.starts_with("ERR") || syn1 != syn2) && has_name_value_attr(input) {
         return Some("name-value-attr".into());
     }
